@@ -12,6 +12,7 @@ import (
 	"bytes"
 	"encoding/csv"
 	"encoding/json"
+	"errors"
 	"fmt"
 	"math"
 	"math/rand"
@@ -25,6 +26,24 @@ import (
 )
 
 type fail struct{ class, what string }
+
+// quotaWriter accepts left bytes and fails from then on.
+type quotaWriter struct {
+	left int
+	buf  bytes.Buffer
+}
+
+func (q *quotaWriter) Write(p []byte) (int, error) {
+	if len(p) <= q.left {
+		q.left -= len(p)
+		q.buf.Write(p)
+		return len(p), nil
+	}
+	n := q.left
+	q.buf.Write(p[:n])
+	q.left = 0
+	return n, errors.New("no space left on device")
+}
 
 func failf(class, format string, a ...any) *fail { return &fail{class, fmt.Sprintf(format, a...)} }
 
@@ -911,6 +930,32 @@ func runCase(c *fw.Ctx, i int) {
 	c.Guard("Exporter", id, detail, func() {
 		ex := func(k rag.ExportConfig) (string, error) { return rag.NewExporterWithConfig(k).ExportToString(chunks) }
 		report("Exporter.ExportToString", checkExport(ex, chunks, cfg, c))
+	})
+	c.Guard("Exporter.Export(limited writer)", id, detail, func() {
+		// a destination that takes only the first q bytes (disk full, closed pipe): an
+		// export that reports success has delivered the whole, parseable output, so
+		// here it has to report the failure
+		ref, err := rag.NewExporterWithConfig(cfg).ExportToString(chunks)
+		if err != nil || len(ref) == 0 {
+			return
+		}
+		rq := c.Rand("coll", i, "quota")
+		for k := 0; k < 3; k++ {
+			q := rq.Intn(len(ref))
+			if k == 0 {
+				q = len(ref) - 1 - rq.Intn(min(len(ref), 64)) // in the tail of the output
+				if q < 0 {
+					q = 0
+				}
+			}
+			w := &quotaWriter{left: q}
+			err := rag.NewExporterWithConfig(cfg).Export(chunks, w)
+			c.Count("limited_writer_exports", 1)
+			if err == nil {
+				report("Exporter.Export", failf("write-error-swallowed", "the destination accepted %d of %d bytes and then failed, Export returned nil (sink holds %d bytes, format %v)", q, len(ref), w.buf.Len(), cfg.Format))
+				return
+			}
+		}
 	})
 	c.Guard("ChunkCollection.To*", id, detail, func() {
 		d := rag.DefaultExportConfig()
